@@ -42,7 +42,7 @@ func statChanges(before, after run.Snapshot, paths []string) []mon.Problem {
 func c02(args []string) {
 	c := chk.New("C02", "exploration", args)
 	c.Build(false)
-	c.Rule("generated non-streaming graphs of command / Go-function processes and sources; for each graph subsets of its tasks (all subsets when <= 5 tasks, else random ones) get all their outputs pre-placed (bytes of an earlier complete run incl. audit files / arbitrary user bytes / empty files), and the history 'complete run, run again in place'; oracle = no start event of a skipped task, (inode, size, mtime_ns, sha256) of every pre-existing output unchanged, downstream tasks executed exactly once on the pre-existing bytes (reference evaluation), re-run executes nothing. distinct_nontrivial = distinct (graph shape, subset, content kind) with >= 1 skipped and >= 1 executed task, plus re-run histories")
+	c.Rule("generated non-streaming graphs of command / Go-function processes and sources; for each graph subsets of its tasks (all subsets when <= 5 tasks, else random ones) get all their outputs pre-placed (bytes of an earlier complete run incl. audit files / arbitrary user bytes / empty files), and the history 'complete run, run again in place' (also: 4-16 independent chains that end in the sink and fan into one merging process, re-run 25-60 times in place as separate processes and 60-150 times inside one process, so that every process finishes at the same moment); oracle = no start event of a skipped task, (inode, size, mtime_ns, sha256) of every pre-existing output unchanged, downstream tasks executed exactly once on the pre-existing bytes (reference evaluation), re-run executes nothing. distinct_nontrivial = distinct (graph shape, subset, content kind) with >= 1 skipped and >= 1 executed task, plus re-run histories")
 	c.Assume("subsets are subsets of tasks (all outputs of a task present), as the property quantifies; partial presence is C03's subject", ".audit.json files, log/ and atime are not judged")
 	rng := c.Rand("c02")
 	ngraphs := c.Pick(14, 120)
@@ -327,7 +327,129 @@ func c02(args []string) {
 		}
 		c.Sample(map[string]interface{}{"graph": gen.Describe(j.s), "preexisting_task_indices": j.subset, "content_kind": j.kind, "skipped": nskip, "executed": nexec, "cfg": j.cfg})
 	})
+	c02rerunMany(c)
 	c.Finish()
+}
+
+// c02rerunMany: history 'complete run, then the completed workflow is built and run again N times in
+// place (inside one process)': k independent two-step chains end in the sink and also fan into one merging
+// process, so on every re-run all tasks are skipped within microseconds and all processes finish at once.
+func c02rerunMany(c *chk.Ctx) {
+	rng := c.Rand("c02rerun")
+	type job struct {
+		k, n, iters int
+		cfg         Cfg
+	}
+	var jobs []*job
+	for r := 0; r < c.Pick(8, 32); r++ {
+		jobs = append(jobs, &job{k: []int{4, 8, 16}[r%3], n: 1 + r%2, iters: c.Pick(60, 150), cfg: Cfg{Buf: []int{1, 3, 128}[rng.Intn(3)], Procs: []int{2, 4, 8, 16}[r%4], NoHooks: r%4 != 3}})
+	}
+	run.Parallel(len(jobs), func(i int) {
+		j := jobs[i]
+		root := c.CaseDir()
+		defer c.Drop(root)
+		s := &spec.Spec{Name: fmt.Sprintf("rerun%d", j.k), MaxTasks: 4, Sources: map[string]string{}}
+		in, o1 := []spec.PortDecl{{Name: "in"}}, []spec.PortDecl{{Name: "out"}}
+		for u := 0; u < j.k; u++ {
+			src := &spec.Proc{Name: fmt.Sprintf("src%d", u), Kind: spec.KFileSource}
+			for x := 0; x < j.n; x++ {
+				f := fmt.Sprintf("s%d_%d.txt", u, x)
+				src.Files = append(src.Files, f)
+				s.Sources[f] = f + "\n"
+			}
+			a, b := fmt.Sprintf("a%d", u), fmt.Sprintf("b%d", u)
+			s.Procs = append(s.Procs, src, &spec.Proc{Name: a, Kind: spec.KCmd, Cmd: spec.BuildCmd(a, in, o1, nil, nil, nil)}, &spec.Proc{Name: b, Kind: spec.KCmd, Cmd: spec.BuildCmd(b, in, o1, nil, nil, nil)})
+			s.Conns = append(s.Conns, &spec.Conn{From: src.Name + ".out", To: a + ".in"}, &spec.Conn{From: a + ".out", To: b + ".in"}, &spec.Conn{From: a + ".out", To: "M.in"})
+		}
+		s.Procs = append(s.Procs, &spec.Proc{Name: "M", Kind: spec.KCmd, Cmd: spec.BuildCmd("M", in, o1, nil, nil, nil)})
+		exp := evalRef(s, nil)
+		if exp.Err != "" {
+			c.Broken("reference cannot evaluate the re-run shape: " + exp.Err)
+		}
+		desc := map[string]interface{}{"spec": s, "cfg": j.cfg, "chains": j.k, "reruns_in_one_process": j.iters, "history": "complete run, then N re-runs in place"}
+		res := execSpec(c, root, s, j.cfg, nil, false, 0)
+		ps, hang := judgeRun(res, s, exp)
+		if hang != "" {
+			c.Inconclusive("first run: " + hang)
+			return
+		}
+		if len(ps) > 0 {
+			for _, sig := range sigSet(ps) {
+				c.Violation(sig, strings.Join(mon.Summarize(ps, 6), "\n  "), desc)
+			}
+			return
+		}
+		before := run.Snap(res.Wd)
+		var outs []string
+		for _, t := range exp.Tasks {
+			for _, o := range t.Outs {
+				outs = append(outs, filepath.Clean(o))
+			}
+		}
+		var rp []mon.Problem
+		// re-runs as separate processes
+		nsep := c.Pick(25, 60)
+		for x := 1; x <= nsep && len(rp) == 0; x++ {
+			rx := execSpec(c, root, s, j.cfg, nil, true, x)
+			if rx.Hang != "" {
+				if !strings.HasPrefix(rx.Hang, "deadlock") {
+					c.Inconclusive("re-run: " + rx.Hang)
+					return
+				}
+				rp = append(rp, mon.Problem{Sig: "rerun-hang", Msg: fmt.Sprintf("re-run %d of the completed workflow did not terminate: %s\n%s", x, rx.Hang, clip(rx.HangInfo, 800))})
+			} else if rx.Exit != 0 || !rx.Returned {
+				rp = append(rp, mon.Problem{Sig: "rerun-failed", Msg: fmt.Sprintf("re-run %d of the completed workflow exited %d: %s", x, rx.Exit, tail(rx.Output(), 600))})
+			}
+			for _, e := range rx.Trace {
+				if e.Ev == "start" {
+					rp = append(rp, mon.Problem{Sig: "rerun-executed-command", Msg: fmt.Sprintf("re-run %d executed %s", x, e.Key)})
+				}
+			}
+		}
+		if len(rp) > 0 {
+			rp = append(rp, statChanges(before, run.Snap(res.Wd), outs)...)
+			for _, sig := range sigSet(rp) {
+				desc["problems"] = mon.Summarize(rp, 12)
+				c.Violation(sig, strings.Join(mon.Summarize(rp, 4), "\n  "), desc)
+			}
+			return
+		}
+		c.Count("reruns_in_place", nsep)
+		s2 := s.Clone()
+		s2.Run.Repeat = j.iters
+		s2.LogFile = "/dev/null"
+		r2 := execSpec(c, root, s2, j.cfg, nil, true, nsep+1)
+		if r2.Hang != "" {
+			if !strings.HasPrefix(r2.Hang, "deadlock") {
+				c.Inconclusive("re-runs: " + r2.Hang)
+				return
+			}
+			rp = append(rp, mon.Problem{Sig: "rerun-hang", Msg: "re-running the completed workflow did not terminate: " + r2.Hang + "\n" + clip(r2.HangInfo, 800)})
+		} else if r2.Exit != 0 || !r2.Returned {
+			rp = append(rp, mon.Problem{Sig: "rerun-failed", Msg: fmt.Sprintf("re-running the completed workflow (%d times in place) exited %d: %s", j.iters, r2.Exit, tail(r2.Output(), 600))})
+		}
+		nstart := 0
+		for _, e := range r2.Trace {
+			if e.Ev == "start" {
+				nstart++
+			}
+		}
+		if nstart > 0 {
+			rp = append(rp, mon.Problem{Sig: "rerun-executed-command", Msg: fmt.Sprintf("%d commands were executed while re-running the completed workflow", nstart)})
+		}
+		rp = append(rp, statChanges(before, run.Snap(r2.Wd), outs)...)
+		if len(rp) > 0 {
+			for _, sig := range sigSet(rp) {
+				desc["problems"] = mon.Summarize(rp, 12)
+				c.Violation(sig, strings.Join(mon.Summarize(rp, 4), "\n  "), desc)
+			}
+			return
+		}
+		c.Count("reruns_in_place", j.iters)
+		c.Count("tasks_skipped", j.iters*len(exp.Tasks))
+		c.Count("outputs_stat_compared", len(outs))
+		c.Nontrivial(fmt.Sprintf("rerun-many|%d|%d|%v", j.k, j.n, j.cfg))
+	})
 }
 
 func tail(s string, n int) string {
